@@ -70,6 +70,7 @@ def _worker_main(modname, build_kind, build_path, tier, jobq, resq, hb, wid):
             except BaseException:
                 res = {"harness_error": traceback.format_exc()}
             resq.put((wid, jid, build_kind, res))
+            hb[1] = -1  # idle between jobs: not a hang
         resq.put((wid, None, build_kind, None))
     except BaseException:
         resq.put((wid, "fatal", build_kind, {"harness_error": traceback.format_exc()}))
